@@ -25,10 +25,15 @@
 (* with the sentence of property C20 it encodes.                           *)
 (*                                                                         *)
 (* Reading of the property (reported for DESIGN.md section 9):             *)
-(*  - "declared dependencies" = module_depends().  module_antidepends()    *)
-(*    and module_is_backend() are outside the contract (a provider that    *)
-(*    loads its consumer cannot have "its dependencies fully constructed   *)
-(*    before it finishes constructing"); such cases are never generated.   *)
+(*  - "declared dependencies" = module_depends(), and the same edge       *)
+(*    declared from its other end with module_antidepends() (README: the   *)
+(*    caller "is a back-end provider for some other module, and must be    *)
+(*    unloaded after it"; module.h: "treated as a dependency of that       *)
+(*    module").  The construction-order sentence is about module_depends() *)
+(*    edges only (a provider that loads its consumer from inside its own   *)
+(*    constructor cannot be fully constructed first); contradictory        *)
+(*    declarations (see Consistent) and module_is_backend() are outside    *)
+(*    the contract and never generated.                                    *)
 (*  - All ordering sentences are scoped by "for every acyclic dependency   *)
 (*    graph", so they are required of GOOD cases only (needed part of the  *)
 (*    graph acyclic, every needed module loadable).                        *)
